@@ -43,9 +43,9 @@ def main():
     items = []
     for tid, rty, tmpl in bodies():
         for mech in MECHS:
-            items.append(dict(tid=tid, mech=mech, n=(3 if tier == "quick" else 40)))
+            items.append(dict(tid=tid, mech=mech, n=(4 if tier == "quick" else 40)))
     common.rng(PROP, "plan").shuffle(items)
-    nshards = 8 if tier == "quick" else 32
+    nshards = 16 if tier == "quick" else 32
     jobs = [dict(seed="%d/%s/%d" % (common.seed(), PROP, s), items=items[s::nshards], solver=True) for s in range(nshards)]
     R = common.Run(PROP, "exploration", RULE)
     for job, res, err in shard.run_jobs("vf.checks.C07", "worker", jobs, timeout=3600, nproc=16):
